@@ -158,7 +158,8 @@ class YosysBehavioralRTLIRToVVisitorL1( BehavioralRTLIRToVVisitorL1 ):
         n_zero = nbits - cur_nbits
         return f"{{ {{ {n_zero} {{ 1'b0 }} }}, {value_str} }}"
 
-    return f"{nbits}'d{value}"
+    # Bits4(-1) is 4'd15
+    return f"{nbits}'d{int(value) & ( ( 1 << nbits ) - 1 )}"
 
   #-----------------------------------------------------------------------
   # visit_Attribute
@@ -174,7 +175,7 @@ class YosysBehavioralRTLIRToVVisitorL1( BehavioralRTLIRToVVisitorL1 ):
       obj = Type.get_object()
       if isinstance( obj, int ):
         nbits = node.Type.get_dtype().get_length()
-        node.sexpr['s_attr'] = f"{nbits}'d{obj}"
+        node.sexpr['s_attr'] = f"{nbits}'d{obj & ( ( 1 << nbits ) - 1 )}"
         node.sexpr['s_index'] = ""
       elif isinstance( obj, Bits ):
         # nbits = obj.nbits
@@ -271,7 +272,7 @@ class YosysBehavioralRTLIRToVVisitorL1( BehavioralRTLIRToVVisitorL1 ):
   def visit_FreeVar( s, node ):
     if isinstance( node.obj, int ):
       nbits = node.Type.get_dtype().get_length()
-      return f"{nbits}'d{node.obj}"
+      return f"{nbits}'d{node.obj & ( ( 1 << nbits ) - 1 )}"
     elif isinstance( node.obj, Bits ):
       nbits = node.obj.nbits
       value = int( node.obj )
